@@ -520,6 +520,9 @@ def differential():
 
 def main():
     bad = differential() + differential2() + differential3() if "--no-lean" not in sys.argv else []
+    import pygen_pxindex_selftest                       # constructs added for harness/pygen_pxindex.py (C16, C17)
+    bad4, nref4, nin4 = pygen_pxindex_selftest.run("--no-lean" not in sys.argv)
+    bad += bad4
     for what, src in REFUSED.items():
         try:
             tree = ast.parse(src)
@@ -547,8 +550,8 @@ def main():
     got = got[:got.index("")]
     if got != ACCEPTED_LEAN:
         bad.append("unexpected translation:\n" + "\n".join(got))
-    print(f"pygen selftest: {len(REFUSED)} refusals, 3 translations" +
-          (", 48 + 150 + 48 inputs through Python and the generated Lean" if "--no-lean" not in sys.argv else "") +
+    print(f"pygen selftest: {len(REFUSED)} + {nref4} refusals, 3 + 1 translations" +
+          (f", 48 + 150 + 48 + {nin4} inputs through Python and the generated Lean" if "--no-lean" not in sys.argv else "") +
           f" checked, {len(bad)} problem(s)")
     for b in bad:
         print("  " + b)
